@@ -133,6 +133,155 @@ fn catalogue() -> Vec<String> {
     v
 }
 
+
+// ---------------------------------------------------------------- random derivations of doc/syntax.md
+struct Rng(u64);
+impl Rng {
+    fn next(&mut self) -> u64 { self.0 = self.0.wrapping_mul(6364136223846793005).wrapping_add(1442695040888963407); self.0 >> 33 }
+    fn below(&mut self, n: u64) -> u64 { self.next() % n }
+    fn chance(&mut self, pct: u64) -> bool { self.below(100) < pct }
+    fn pick<'a>(&mut self, v: &[&'a str]) -> &'a str { v[self.below(v.len() as u64) as usize] }
+}
+/// sp+ : one to three blanks (spaces only where a tab would change the meaning)
+fn sp1(r: &mut Rng) -> String { " ".repeat(1 + r.below(3) as usize) }
+/// sp* : zero to two spaces
+fn sp0(r: &mut Rng) -> String { " ".repeat(r.below(3) as usize) }
+fn date(r: &mut Rng) -> String {
+    let (y, m, d) = (2000 + r.below(30), 1 + r.below(12), 1 + r.below(28));
+    if r.chance(50) { format!("{:04}/{:02}/{:02}", y, m, d) } else { format!("{:04}-{:02}-{:02}", y, m, d) }
+}
+fn decimal(r: &mut Rng) -> String {
+    let int = match r.below(5) {
+        0 => format!("{}", r.below(10)),
+        1 => format!("{}", r.below(100000)),
+        2 => format!("{},{:03}", 1 + r.below(999), r.below(1000)),
+        3 => format!("{},{:03},{:03}", 1 + r.below(99), r.below(1000), r.below(1000)),
+        _ => format!("{}", 100 + r.below(900)),
+    };
+    match r.below(4) { 0 => int, 1 => format!("{}.{}", int, r.below(10)), 2 => format!("{}.{:02}", int, r.below(100)), _ => format!("{}.{:04}", int, r.below(10000)) }
+}
+fn commodity(r: &mut Rng) -> &'static str { r.pick(&["JPY", "CHF", "USD", "OKANE", "円", "¥", "$", "€uro", "ACME_B"]) }
+fn amount_expr(r: &mut Rng, signed: bool) -> String {
+    let neg = if signed && r.chance(35) { "-" } else { "" };
+    if r.chance(15) { format!("{}{}", neg, decimal(r)) } else { format!("{}{}{}{}", neg, decimal(r), sp0(r), commodity(r)) }
+}
+fn add_expr(r: &mut Rng, depth: u32) -> String {
+    let mut s = mul_expr(r, depth);
+    for _ in 0..r.below(3) { s = format!("{}{}{}{}{}", s, sp0(r), r.pick(&["+", "-"]), sp0(r), mul_expr(r, depth)); }
+    s
+}
+fn mul_expr(r: &mut Rng, depth: u32) -> String {
+    let mut s = unary_expr(r, depth);
+    for _ in 0..r.below(2) { s = format!("{}{}{}{}{}", s, sp0(r), r.pick(&["*", "/"]), sp0(r), unary_expr(r, depth)); }
+    s
+}
+fn unary_expr(r: &mut Rng, depth: u32) -> String {
+    let neg = if r.chance(25) { "-" } else { "" };
+    if depth < 2 && r.chance(25) { format!("{}({}{}{})", neg, sp0(r), add_expr(r, depth + 1), sp0(r)) } else { format!("{}{}", neg, amount_expr(r, false)) }
+}
+fn value_expr(r: &mut Rng) -> String {
+    if r.chance(20) { format!("({}{}{})", sp0(r), add_expr(r, 0), sp0(r)) } else { amount_expr(r, true) }
+}
+fn tag(r: &mut Rng) -> &'static str { r.pick(&["Key", "payee", "タグ", "a-b", "x_1"]) }
+fn metadata(r: &mut Rng) -> String {
+    match r.below(4) {
+        0 => format!(";{}{}{}:{}{}", sp0(r), tag(r), sp0(r), sp0(r), r.pick(&["value", "some text; with semi", "値 テキスト", "123"])),
+        1 => format!(";{}{}{}::{}{}", sp0(r), tag(r), sp0(r), sp0(r), value_expr(r)),
+        2 => { let n = 1 + r.below(3); let mut s = format!(";{}:", sp0(r)); for _ in 0..n { s.push_str(tag(r)); s.push(':'); } s }
+        _ => format!(";{}", r.pick(&[" free comment", "no space comment", " コメント", " trailing ; semi"])),
+    }
+}
+fn account(r: &mut Rng) -> &'static str { r.pick(&["A", "Assets:Bank", "Assets:Bank Account", "Expenses:食費", "資産:銀行 口座", "Liabilities:Card:Visa 1234", "Equity"]) }
+fn lot(r: &mut Rng) -> String {
+    let mut parts: Vec<String> = Vec::new();
+    if r.chance(70) { let a = amount_expr(r, false); parts.push(if r.chance(50) { format!("{{{}{}{}}}", sp0(r), a, sp0(r)) } else { format!("{{{{{}{}{}}}}}", sp0(r), a, sp0(r)) }); }
+    if r.chance(50) { parts.push(format!("[{}{}{}]", sp0(r), date(r), sp0(r))); }
+    if r.chance(40) { parts.push(format!("({})", r.pick(&["lot note", "ロット", "n1", ""]))); }
+    // any permutation
+    for i in (1..parts.len()).rev() { let j = r.below(i as u64 + 1) as usize; parts.swap(i, j); }
+    let mut s = String::new();
+    for p in parts { s.push_str(&p); s.push_str(&sp0(r)); }
+    s
+}
+fn posting(r: &mut Rng) -> String {
+    let mut s = sp1(r);
+    if r.chance(25) { s.push_str(r.pick(&["*", "!"])); s.push_str(&sp0(r)); }
+    s.push_str(account(r));
+    if r.chance(85) {
+        s.push_str(if r.chance(85) { "  " } else { "\t" });
+        s.push_str(&sp0(r));
+        let has_amount = r.chance(85);
+        if has_amount {
+            s.push_str(&value_expr(r));
+            s.push_str(&sp0(r));
+            if r.chance(30) { s.push_str(&lot(r)); }
+            if r.chance(30) { s.push_str(r.pick(&["@@", "@"])); s.push_str(&sp0(r)); s.push_str(&value_expr(r)); }
+            s.push_str(&sp0(r));
+        }
+        if !has_amount || r.chance(30) { s.push('='); s.push_str(&sp0(r)); s.push_str(&value_expr(r)); s.push_str(&sp0(r)); }
+    }
+    if r.chance(20) { s.push_str(&sp0(r)); s.push_str(&metadata(r)); }
+    s.push('\n');
+    for _ in 0..r.below(3) { if r.chance(40) { s.push_str(&sp1(r)); s.push_str(&metadata(r)); s.push('\n'); } }
+    s
+}
+fn transaction(r: &mut Rng) -> String {
+    let mut s = date(r);
+    if r.chance(30) { s.push('='); s.push_str(&date(r)); }
+    if r.chance(90) {
+        s.push_str(&sp1(r));
+        if r.chance(50) { s.push_str(r.pick(&["*", "!"])); s.push_str(&sp0(r)); }
+        if r.chance(40) { s.push_str(&format!("({}{}{})", sp0(r), r.pick(&["c1", "#12", "コード 7", "a b", ""]), sp0(r))); s.push_str(&sp0(r)); }
+        s.push_str(r.pick(&["Payee", "Some Shop 24/7", "支払い 先", "P = Q @ R", "x", ""]));
+    }
+    if r.chance(15) { s.push_str(&sp0(r)); s.push_str(&metadata(r)); }
+    s.push('\n');
+    for _ in 0..r.below(3) { s.push_str(&sp1(r)); s.push_str(&metadata(r)); s.push('\n'); }
+    for _ in 0..(r.below(4)) { s.push_str(&posting(r)); }
+    s
+}
+fn directive(r: &mut Rng) -> String {
+    match r.below(6) {
+        0 => { let mut s = String::new(); for _ in 0..(1 + r.below(3)) { s.push_str(&format!("{}{}\n", r.pick(&[";", "#", "%", "|", "*"]), r.pick(&[" comment", "", " コメント", "no space"]))); } s }
+        1 => {
+            let mut s = format!("account{}{}{}\n", sp1(r), account(r), sp0(r));
+            for _ in 0..r.below(4) {
+                match r.below(3) {
+                    0 => s.push_str(&format!("{}note{}{}\n", sp1(r), sp1(r), r.pick(&["a note", "ノート", "n; with semi"]))),
+                    1 => s.push_str(&format!("{}alias{}{}\n", sp1(r), sp1(r), account(r))),
+                    _ => s.push_str(&format!("{}{}{}\n", sp1(r), r.pick(&[";", "#", "%", "|", "*"]), r.pick(&[" a comment", "tight", " コメント"]))),
+                }
+            }
+            s
+        }
+        2 => {
+            let mut s = format!("commodity{}{}{}\n", sp1(r), commodity(r), sp0(r));
+            for _ in 0..r.below(4) {
+                match r.below(4) {
+                    0 => s.push_str(&format!("{}note{}{}\n", sp1(r), sp1(r), r.pick(&["a note", "ノート"]))),
+                    1 => s.push_str(&format!("{}alias{}{}\n", sp1(r), sp1(r), commodity(r))),
+                    2 => s.push_str(&format!("{}format{}{}\n", sp1(r), sp1(r), r.pick(&["1,000.00 USD", "1,000 JPY", "1000.0000 OKANE"]))),
+                    _ => s.push_str(&format!("{}{}{}\n", sp1(r), r.pick(&[";", "#", "%", "|", "*"]), r.pick(&[" a comment", "tight"]))),
+                }
+            }
+            s
+        }
+        3 => if r.chance(50) { format!("apply{}tag{}{}{}\n", sp1(r), sp1(r), tag(r), sp0(r)) } else { format!("apply{}tag{}{}{}:{}{}\n", sp1(r), sp1(r), tag(r), sp0(r), sp0(r), r.pick(&["value", "値"])) },
+        4 => format!("end{}apply{}tag{}\n", sp1(r), sp1(r), sp0(r)),
+        _ => format!("include{}{}\n", sp1(r), r.pick(&["other.ledger", "sub/*.ledger", "../x y.ledger"])),
+    }
+}
+/// one random ledger file: vertical-space* (directive vertical-space*)*
+fn random_file(r: &mut Rng) -> String {
+    let mut s = String::new();
+    for _ in 0..r.below(2) { s.push('\n'); }
+    for _ in 0..(1 + r.below(3)) {
+        s.push_str(&if r.chance(65) { transaction(r) } else { directive(r) });
+        for _ in 0..(1 + r.below(2)) { s.push_str(&sp0(r)); s.push('\n'); }
+    }
+    match r.below(4) { 0 => s.trim_end_matches(|c| c == '\n' || c == ' ').to_owned(), 1 => s.replace('\n', "\r\n"), _ => s }
+}
+
 pub fn run(args: &[String]) -> i32 {
     let thorough = args.first().map(|x| x == "thorough").unwrap_or(false);
     if args.first().map(|x| x == "--only").unwrap_or(false) {
@@ -165,6 +314,26 @@ pub fn run(args: &[String]) -> i32 {
     // the whole catalogue as one file, and the bundled sample
     texts.push(cat.join("\n"));
     texts.push(include_str!("../data/sample.ledger").to_owned());
+    // accounts of every display width around the amount column (ASCII and wide, with and without a clear mark): the
+    // formatter must keep two spaces after the account or the amount reads back as part of the account name
+    for w in 36..=56usize {
+        for wide in [false, true] {
+            let mut acct = String::from("A:");
+            if wide { while acct.chars().map(|c| if c == 'あ' { 2 } else { 1 }).sum::<usize>() + 2 <= w { acct.push('あ'); } }
+            while acct.chars().map(|c| if c == 'あ' { 2 } else { 1 }).sum::<usize>() < w { acct.push('b'); }
+            for mark in ["", "* "] {
+                for rest in ["5 CHF", "-1,234.50 CHF", "(1 + 2)", "= 0", "= 10 CHF", "5 CHF @ 2 JPY = 5 CHF"] {
+                    texts.push(format!("2024/05/01 w\n    {}{}  {}\n    Z\n", mark, acct, rest));
+                }
+            }
+        }
+    }
+    // random derivations of the documented grammar (seeded: VERIF_SEED)
+    let seed: u64 = std::env::var("VERIF_SEED").ok().and_then(|x| x.parse().ok()).unwrap_or(1);
+    let mut rng = Rng(seed.wrapping_mul(0x9E3779B97F4A7C15) ^ 0xC05);
+    for _ in 0..(if thorough { 6000 } else { 800 }) {
+        texts.push(random_file(&mut rng));
+    }
     for t in &texts {
         evaluated += 1;
         if let Some(why) = laws(t) {
